@@ -416,6 +416,97 @@ func c04RaceScenario(kind string) *explore.Scenario {
 	return sc
 }
 
+// two registry calls racing with each other (no dispatch in flight): after both have returned the registry is
+// what the two calls, in either order, make it
+func c04Race2Scenario(kind string) *explore.Scenario {
+	sc := &explore.Scenario{
+		Family: "handlers-race2",
+		Name:   "handlers-race2/" + kind,
+		Params: map[string]interface{}{"kind": kind},
+		Opt:    vx.Options{MaxSteps: 40000, StmtMode: true},
+	}
+	// expected runs per handler for the event after the race
+	want := map[string]map[string]int{
+		"two-adds-new-name":     {"hA": 1, "hB": 1},
+		"two-bg-adds-new-name":  {"hA": 1, "hB": 1},
+		"fg-and-bg-add":         {"hA": 1, "hB": 1},
+		"add-vs-remove-only":    {"h1": 0, "hB": 1},
+		"two-removes":           {"h1": 0, "h2": 0, "h3": 1},
+		"remove-only-vs-remove": {"h1": 0, "h2": 0},
+	}[kind]
+	sc.Main = func(env *vx.Env) {
+		s, err := StartSession(env, "me", nil, nil)
+		if err != nil {
+			return
+		}
+		c := s.C
+		mk := func(id string) client.HandlerFunc {
+			return func(conn *client.Conn, line *client.Line) {
+				vx.Observe("ev", fmt.Sprintf("run %s %s", id, line.Text()))
+			}
+		}
+		var a, b func()
+		switch kind {
+		case "two-adds-new-name":
+			a = func() { c.HandleFunc("bar", mk("hA")) }
+			b = func() { c.HandleFunc("BAR", mk("hB")) }
+		case "two-bg-adds-new-name":
+			a = func() { c.HandleBG("bar", mk("hA")) }
+			b = func() { c.HandleBG("Bar", mk("hB")) }
+		case "fg-and-bg-add":
+			a = func() { c.HandleFunc("bar", mk("hA")) }
+			b = func() { c.HandleBG("bar", mk("hB")) }
+		case "add-vs-remove-only":
+			r1 := c.Handle("bar", mk("h1"))
+			a = func() { r1.Remove() }
+			b = func() { c.HandleFunc("bar", mk("hB")) }
+		case "two-removes":
+			r1 := c.Handle("bar", mk("h1"))
+			r2 := c.Handle("bar", mk("h2"))
+			c.Handle("bar", mk("h3"))
+			a = func() { r1.Remove() }
+			b = func() { r2.Remove() }
+		case "remove-only-vs-remove":
+			r1 := c.Handle("bar", mk("h1"))
+			r2 := c.Handle("bar", mk("h2"))
+			a = func() { r1.Remove() }
+			b = func() { r2.Remove() }
+		}
+		vx.StmtMode(true)
+		done := vx.NewCounter("racers")
+		env.Go("racerA", func() { a(); done.Add(1) })
+		env.Go("racerB", func() { b(); done.Add(1) })
+		done.WaitFor(2)
+		vx.StmtMode(false)
+		s.Feed(":o!u@h BAR :e1")
+		s.End()
+	}
+	sc.Check = func(o *vx.Outcome) []explore.Finding {
+		if fs := stdOutcome(o); fs != nil {
+			return fs
+		}
+		ev := o.Log("ev")
+		var fs []explore.Finding
+		for _, r := range o.Races {
+			fs = append(fs, explore.Finding{Oracle: "data-race-on-handler-set", Msg: "unordered conflicting accesses to the handler registry: " + r.String()})
+			break
+		}
+		runs := map[string]int{}
+		for _, r := range ev {
+			if f := strings.Fields(r); len(f) == 3 && f[0] == "run" {
+				runs[f[1]]++
+			}
+		}
+		for h, n := range want {
+			if runs[h] != n {
+				fs = append(fs, explore.Finding{Oracle: "invocation-count", Msg: fmt.Sprintf("after two racing registry calls had returned, handler %s ran %d times for the next event, expected %d :: %s", h, runs[h], n, strings.Join(ev, "; "))})
+			}
+		}
+		return fs
+	}
+	return sc
+}
+
 // overlapping dispatches: background handlers under two names, events arriving back to back (no quiescence in
 // between), so that the background dispatch of one event is still running when the next one begins
 func c04OverlapScenario(nbg, nev int) *explore.Scenario {
@@ -488,7 +579,7 @@ func c04OverlapScenario(nbg, nev int) *explore.Scenario {
 func init() {
 	Register(&Prop{
 		ID:   "C04",
-		Rule: "all histories up to depth 5 (quick) / 6 (thorough) that end in an event, over 20 letters = register fg/bg (Handle, HandleFunc, HandleBG) under foo/FOO/Foo/baz, 8 scripted handlers (remove self, remove previous sibling, add to own set, add to other set), Remove of the first/second/last registered handler, events FOO and BAZ; each history runs on a fresh real session and per-handler invocation counts are compared with the multiset model after every event; plus scripted histories, racing Handle/HandleBG/Remove calls from another goroutine, and back-to-back events whose background dispatches overlap, under K<=2 schedule deviations; distinct = distinct histories",
+		Rule: "all histories up to depth 5 (quick) / 6 (thorough) that end in an event, over 20 letters = register fg/bg (Handle, HandleFunc, HandleBG) under foo/FOO/Foo/baz, 8 scripted handlers (remove self, remove previous sibling, add to own set, add to other set), Remove of the first/second/last registered handler, events FOO and BAZ; each history runs on a fresh real session and per-handler invocation counts are compared with the multiset model after every event; plus scripted histories, racing Handle/HandleBG/Remove calls from another goroutine (against a dispatch in flight, and two calls against each other: two first registrations of a name, registration against removal of the only handler, two removals), and back-to-back events whose background dispatches overlap, under K<=2 schedule deviations; distinct = distinct histories",
 		Assumptions: []string{
 			"sequential histories run under the default scheduler with quiescence between top-level operations; interleavings are the subject of the handlers-concurrent / handlers-race families",
 			"each Remover is used at most once (guarded by the harness); a handler added to the other set during an event may or may not see that event",
@@ -548,6 +639,13 @@ func init() {
 					spec.CrossChk = &explore.Budget{K: 2}
 				}
 				jobs = append(jobs, ExploreJob("C04", spec, 40))
+			}
+			for _, k := range []string{"two-adds-new-name", "two-bg-adds-new-name", "fg-and-bg-add", "add-vs-remove-only", "two-removes", "remove-only-vs-remove"} {
+				bs := []explore.Budget{{0, 0}, {1, 0}, {2, 0}}
+				if tier == "thorough" {
+					bs = append(bs, explore.Budget{K: 3})
+				}
+				jobs = append(jobs, ExploreJob("C04", ExploreSpec{Sc: c04Race2Scenario(k), Variants: []int{1, 2, 3}, Budgets: bs, Cache: true}, 30))
 			}
 			return jobs
 		},
